@@ -110,7 +110,7 @@ def check(tier, seed, t0):
     if tier == "thorough":
         import sanitize
         parts.append(("memcheck", memcheck_leg(seed)))
-        parts.append(("miri", sanitize.miri_leg("C02", 3)(tier, seed)))
+        parts.append(("miri", sanitize.miri_leg("C02", 2)(tier, seed)))
     rep = common.merge_reports(parts)
     return common.finalize("C02", tier, seed, "exploration", RULE, rep, t0, ASSUME,
                            floor_eval=500, floor_distinct=200)
